@@ -131,7 +131,7 @@ def first_diff(real, exp):
 
 def run_case(prog):
     r = Result()
-    run = sched.run_program(prog, "do")
+    run = sched.run_program(prog, prog.get("mode") or "do")
     if run.exc == "Runaway":
         r.fail("C03/run-did-not-terminate", "more than %d cycles" % sched.MAX_CYCLES)
         return r
@@ -141,6 +141,7 @@ def run_case(prog):
     judge(prog, run, r)
     r.labels = shape_labels(prog)
     r.nontrivial = nontrivial(prog, run)
+    r.labels.append("mode:" + (prog.get("mode") or "do"))
     return r
 
 
